@@ -629,12 +629,18 @@ Definition nsless_refs_literal (c : scase) : bool :=
       match find_cond (os_conds m) CInTransition with
       | None => true
       | Some _ =>
-          forallb (nsless_literal m) (all_keys m) &&
           forallb (fun ph => match find_phase (sc_phases c) (phase_kind m) (oi_ns (os_id m)) (C15Corr.join m ph) with
                              | Some p => forallb (nsless_literal m) (op_ctrlof p)
                              | None => true end) (C15Corr.delegated m)
       end
   end.
+
+Lemma nsless_literal_good m x : nsless_literal m x = true -> k_ns x = 0 ->
+  good_ref (dedup_keys (map (spec_key m) (all_objects m))) x.
+Proof.
+  intros H Hns k Hk Hg Hn. unfold nsless_literal in H. rewrite Hns in H. cbn in H. rewrite forallb_forall in H.
+  specialize (H k (dedup_keys_incl _ _ Hk)). rewrite Hg, Hn, !N.eqb_refl in H. cbn in H. now apply okey_eqb_spec in H.
+Qed.
 
 Lemma covers_literal m ctrlof k :
   In k (map (spec_key m) (all_objects m)) -> (forall c, In c ctrlof -> nsless_literal m c = true) ->
@@ -796,26 +802,32 @@ Proof.
       rewrite final_status_in_transition_eq. destruct (in_transition (set_ctrlof mem2 ctrlof) ctrlof) eqn:Hintr; [reflexivity|].
       rewrite ?Hab, ?Hk in Hlit. cbn [negb orb] in Hlit.
       destruct (find_cond (os_conds m) CInTransition) as [ci|]; [|reflexivity]. rewrite orb_false_r.
-      apply andb_true_iff in Hlit. destruct Hlit as [Hl1 Hl2]. rewrite forallb_forall in Hl1, Hl2.
-      assert (Hall : forall c0, In c0 ctrlof -> nsless_literal m c0 = true).
-      { intros c0 Hc0. rewrite Forall_forall in Hsound.
-        destruct (Hsound c0 Hc0) as [[Hloc _]|(q & cur & Hq & Hcq & Hcur & _ & Hkq & _)].
-        - apply Hl1. rewrite all_keys_eq. unfold local_keys in Hloc. fold (local_phases mem1) in Hloc.
-          destruct (as_owner_keys _ _ Hs) as (Hlp & _). rewrite Hlp in Hloc.
-          erewrite flat_map_ext; [exact Hloc|]. intros ph. symmetry. now apply phase_keys_same.
-        - unfold phase_obj_of in Hcur.
+      rewrite forallb_forall in Hlit.
+      set (all := dedup_keys (map (spec_key m) (all_objects m))).
+      assert (Hspec : map (spec_key (set_ctrlof mem2 ctrlof)) (all_objects (set_ctrlof mem2 ctrlof)) = map (spec_key m) (all_objects m)).
+      { unfold all_objects. cbn [os_phases set_ctrlof set_remotes mem2]. rewrite Hphs. apply map_ext. intros p0.
+        unfold spec_key, desired_key, as_owner. cbn [ow_id os_id set_ctrlof set_remotes mem2]. now rewrite Hid. }
+      assert (Hfold : fold_left remove_ctrl ctrlof all = []).
+      { unfold in_transition in Hintr. cbn [os_life set_ctrlof set_remotes mem2] in Hintr. rewrite Hlife in Hintr.
+        destruct Hact as (_ & _ & Hna). destruct (lifecycle_eqb (os_life m) LArchived) eqn:El; [apply lifecycle_eqb_spec in El; contradiction|].
+        rewrite Hspec in Hintr. apply negb_false_iff in Hintr. fold all in Hintr. destruct (fold_left remove_ctrl ctrlof all); [reflexivity|discriminate]. }
+      destruct (rpm_ctrlof_once (sc_force c) mem1 _ _ _ _ _ _ _ _ _ _ _ Hrp Hnd1) as (new & Hnew & Honce). cbn [app] in Hnew. subst new.
+      assert (Hent : forall x, In x ctrlof -> k_ns x = 0 -> good_ref all x \/ (In x all /\ count_occ okey_dec ([] ++ ctrlof) x = 1%nat)).
+      { intros x Hx Hns. rewrite Forall_forall in Honce.
+        destruct (Honce x Hx) as [(q & cur & Hq & Hcq & Hcur & _ & Hkq & _)|[Hloc Hcnt]].
+        - left. apply nsless_literal_good; [|exact Hns]. unfold phase_obj_of in Hcur.
           destruct (rpm_back (sc_force c) mem1 _ _ _ _ _ _ _ _ _ _ _ _ _ _ Hrp Hcur) as [Hnil|(p0 & Hp0 & Hc0')]; [rewrite Hnil in Hkq; contradiction|].
           assert (Hq' : In q (C15Corr.delegated m)) by (unfold C15Corr.delegated; apply filter_In; rewrite <- Hphs; auto).
-          specialize (Hl2 q Hq'). rewrite Hph1 in Hp0. unfold pobj_name in Hp0. unfold phase_kind in Hp0, Hl2. rewrite Hid in Hp0.
-          change (sw_phases (sc_world c)) with (sc_phases c) in Hp0. unfold C15Corr.join in Hl2. rewrite Hp0 in Hl2.
-          rewrite forallb_forall in Hl2. apply Hl2. now rewrite Hc0'. }
-      apply forallb_forall. intros k Hkk. apply existsb_okey. apply (covers_literal m ctrlof k Hkk Hall).
-      assert (Hlf : os_life (set_ctrlof mem2 ctrlof) <> LArchived).
-      { cbn [os_life set_ctrlof set_remotes mem2]. rewrite Hlife. now destruct Hact as (_ & _ & ?). }
-      apply in_map_iff in Hkk. destruct Hkk as (p & <- & Hp).
-      assert (Hp' : In p (all_objects (set_ctrlof mem2 ctrlof))) by (unfold all_objects in *; cbn [os_phases set_ctrlof set_remotes mem2]; now rewrite Hphs).
-      pose proof (not_in_transition_all_controlled _ _ Hintr Hlf p Hp') as Hcov.
-      unfold spec_key, desired_key, as_owner in *. cbn [ow_id os_id set_ctrlof set_remotes mem2] in Hcov. now rewrite Hid in Hcov.
+          specialize (Hlit q Hq'). rewrite Hph1 in Hp0. unfold pobj_name in Hp0. unfold phase_kind in Hp0, Hlit. rewrite Hid in Hp0.
+          change (sw_phases (sc_world c)) with (sc_phases c) in Hp0. unfold C15Corr.join in Hlit. rewrite Hp0 in Hlit.
+          rewrite forallb_forall in Hlit. apply Hlit. now rewrite Hc0'.
+        - right. split; [|exact Hcnt]. apply dedup_keys_in.
+          unfold local_keys in Hloc. apply in_flat_map in Hloc. destruct Hloc as (ph & Hph' & Hkp).
+          apply filter_In in Hph'. destruct Hph' as [Hph' _]. rewrite (phase_keys_same _ _ Hs) in Hkp.
+          unfold phase_keys in Hkp. apply in_map_iff in Hkp. destruct Hkp as (p0 & <- & Hp0).
+          apply in_map. unfold all_objects. apply in_flat_map. exists ph. split; [now rewrite <- Hphs|exact Hp0]. }
+      apply forallb_forall. intros k Hkk. apply existsb_okey.
+      apply (fold_remove_literal all ctrlof [] all (incl_refl _)); [intros k0 Hk0 Hn0; contradiction|exact Hent|exact Hfold|now apply dedup_keys_in].
 Qed.
 
 (** *** The refuting case: a delegated phase whose phase object reports its (namespaced) object without a namespace.
